@@ -374,3 +374,39 @@ Proof.
     pose proof (Z.mod_pos_bound (N * second) R HR) as B.
     unfold q, tsd in Bad. replace (m * T * second) with (N * second) in Hx by (subst N; lia). nia.
 Qed.
+
+(* ---------- the side condition is decidable ---------- *)
+
+(* Only one sample count can have floor adj-1: the least m with m*T*1e9 >= (adj-1)*R
+   (a sample lasts at least 1 ns). [sideb] tests that one. *)
+Definition sideb (adj T R : Z) : bool :=
+  let m := cdiv ((adj - 1) * R) (T * second) in
+  negb (negb ((m * T * second) mod R =? 0) && (tsd (m * T) R + 1 =? adj)).
+
+Lemma sideb_spec : forall adj T R, 0 < R -> 0 < T -> R <= T * second -> 1 <= adj ->
+  (sideb adj T R = true <-> NoStraddle adj T R).
+Proof.
+  intros adj T R HR HT Hsd Hadj. unfold sideb.
+  set (m0 := cdiv ((adj - 1) * R) (T * second)).
+  assert (HTs : 0 < T * second) by (unfold second; lia).
+  assert (Hm0 : 0 <= m0).
+  { unfold m0, cdiv. apply Z.div_pos; [nia|exact HTs]. }
+  assert (Hlow : (adj - 1) * R <= T * second * m0).
+  { apply (cdiv_le_iff ((adj - 1) * R) (T * second) m0 HTs). unfold m0. lia. }
+  split.
+  - intros Hb m Hm Hx Heq.
+    assert (Hfl : R * (adj - 1) <= m * T * second /\ m * T * second < R * adj).
+    { unfold tsd in Heq. split.
+      - apply (div_le_iff (m * T * second) R (adj - 1) HR). lia.
+      - apply (div_lt_iff (m * T * second) R adj HR). lia. }
+    assert (Hle : m0 <= m).
+    { unfold m0. apply (cdiv_le_iff ((adj - 1) * R) (T * second) m HTs). nia. }
+    assert (m = m0) by nia. subst m.
+    destruct (Z.eqb_spec ((m0 * T * second) mod R) 0) as [E|E]; [contradiction|].
+    destruct (Z.eqb_spec (tsd (m0 * T) R + 1) adj) as [E2|E2]; [|contradiction].
+    cbn in Hb. discriminate.
+  - intros NS.
+    destruct (Z.eqb_spec ((m0 * T * second) mod R) 0) as [E|E]; [reflexivity|].
+    destruct (Z.eqb_spec (tsd (m0 * T) R + 1) adj) as [E2|E2]; [|reflexivity].
+    exfalso. exact (NS m0 Hm0 E E2).
+Qed.
